@@ -679,3 +679,75 @@ func RespHeader(req ua.Request, status ua.StatusCode) *ua.ResponseHeader {
 	return &ua.ResponseHeader{Timestamp: time.Now(), RequestHandle: h, ServiceResult: status, ServiceDiagnostics: &ua.DiagnosticInfo{},
 		StringTable: []string{}, AdditionalHeader: ua.NewExtensionObject(nil)}
 }
+
+// ---------- session helpers for the client role ----------
+
+// CreateSession issues CreateSession on an open channel.
+func (c *Channel) CreateSession(endpoint string, clientCert []byte) (*ua.CreateSessionResponse, error) {
+	nonce := make([]byte, 32)
+	rand.Read(nonce)
+	v, err := c.Request(&ua.CreateSessionRequest{
+		ClientDescription:       &ua.ApplicationDescription{ApplicationURI: "urn:verif:refpeer-client", ApplicationName: ua.NewLocalizedText("refpeer"), ApplicationType: ua.ApplicationTypeClient},
+		EndpointURL:             endpoint,
+		SessionName:             "refpeer",
+		ClientNonce:             nonce,
+		ClientCertificate:       clientCert,
+		RequestedSessionTimeout: 60000,
+	}, nil, 10*time.Second)
+	if err != nil {
+		return nil, err
+	}
+	r, ok := v.(*ua.CreateSessionResponse)
+	if !ok {
+		return nil, fmt.Errorf("refpeer: CreateSession answered with %T", v)
+	}
+	return r, nil
+}
+
+// ActivateSession activates with an anonymous identity. clientSig may be nil (mode None).
+func (c *Channel) ActivateSession(authToken *ua.NodeID, policyID string, clientSig *ua.SignatureData) (interface{}, error) {
+	if clientSig == nil {
+		clientSig = &ua.SignatureData{}
+	}
+	return c.Request(&ua.ActivateSessionRequest{
+		ClientSignature:   clientSig,
+		LocaleIDs:         []string{"en"},
+		UserIdentityToken: ua.NewExtensionObject(&ua.AnonymousIdentityToken{PolicyID: policyID}),
+		UserTokenSignature: &ua.SignatureData{},
+	}, authToken, 10*time.Second)
+}
+
+// OpenSession dials, opens a channel without security and creates and activates an anonymous session.
+func OpenSession(addr, endpoint string) (*Channel, *ua.NodeID, error) {
+	c, _, err := Dial(addr, ClientOpts{Hello: Hello{URL: endpoint}, Sec: Security{Mode: ModeNone}})
+	if err != nil {
+		return nil, nil, err
+	}
+	if _, err := c.Open(false, 3600000); err != nil {
+		c.Close()
+		return nil, nil, err
+	}
+	cs, err := c.CreateSession(endpoint, nil)
+	if err != nil {
+		c.Close()
+		return nil, nil, err
+	}
+	v, err := c.ActivateSession(cs.AuthenticationToken, "anonymous_none", nil)
+	if err != nil {
+		c.Close()
+		return nil, nil, err
+	}
+	if _, ok := v.(*ua.ActivateSessionResponse); !ok {
+		c.Close()
+		return nil, nil, fmt.Errorf("refpeer: ActivateSession answered with %T", v)
+	}
+	return c, cs.AuthenticationToken, nil
+}
+
+// StatusOf extracts the service result of a response (ServiceFault included).
+func StatusOf(v interface{}) ua.StatusCode {
+	if r, ok := v.(ua.Response); ok && r.Header() != nil {
+		return r.Header().ServiceResult
+	}
+	return ua.StatusBadUnexpectedError
+}
